@@ -47,6 +47,7 @@ ones (all of them would have to flip).
 """
 
 from fractions import Fraction
+import bisect
 import math
 import types
 
@@ -168,24 +169,32 @@ def _feasible(ref_iv, est_iv, ref_p, est_p, onset_tolerance, pitch_tolerance,
     margin_clear = margin_all = INF
     decided, sure, possible = [], [], []
     use_offset = use_offset and offset_ratio is not None
+    n_est = len(est_iv)
+    # Candidate window (speed only): estimated notes whose onset (offset, for
+    # the offset-only metric) lies more than half a second beyond the tolerance
+    # fail that criterion with a margin > 0.49 and need no exact test.
+    col = 0 if use_onset else (1 if use_offset else None)
+    if col is not None:
+        order = sorted(range(n_est), key=lambda j: est_iv[j][col])
+        keys = [est_iv[j][col] for j in order]
     for i, (r_on, r_off) in enumerate(ref_iv):
         row, row_sure, row_possible = [], [], []
         if use_offset:
             off_tol, off_clean = _offset_tolerance(r_on, r_off, offset_ratio,
                                                    offset_min_tolerance)
-        for j, (e_on, e_off) in enumerate(est_iv):
-            # cheap float pre-test: a pair whose onsets (offsets) are more than
-            # half a second beyond the tolerance fails with a margin > 0.49
-            if use_onset:
-                far = abs(r_on - e_on) - float(onset_tolerance)
-            elif use_offset:
-                far = abs(r_off - e_off) - off_tol
-            else:
-                far = 0.0
-            if far > 0.5:
-                margin_clear = min(margin_clear, far - 0.01)
-                margin_all = min(margin_all, far - 0.01)
-                continue
+        candidates = range(n_est)
+        if col is not None:
+            reach = (float(onset_tolerance) if use_onset else off_tol) + 0.5
+            centre = r_on if use_onset else r_off
+            if reach == reach and reach < INF:
+                lo = bisect.bisect_left(keys, centre - reach)
+                hi = bisect.bisect_right(keys, centre + reach)
+                if hi - lo < n_est:
+                    candidates = sorted(order[lo:hi])
+                    margin_clear = min(margin_clear, 0.49)
+                    margin_all = min(margin_all, 0.49)
+        for j in candidates:
+            e_on, e_off = est_iv[j]
             tests = []
             if use_onset:
                 # "The onset of reference note i is within onset_tolerance of
